@@ -49,6 +49,45 @@ pub fn show_game_response(r: &game::Response) -> String {
     )
 }
 
+/// The per-game form of a protocol response written HERE from the documentation of `valve::game::Response` (each member is
+/// the protocol response's member of the same meaning; every listed player; absent sections are empty) — not through the
+/// library's own conversion, which is part of what the module path is compared against.
+pub fn show_valve_as_game(v: &gamedig::protocols::valve::Response) -> String {
+    let e = v.info.extra_data.as_ref();
+    let none_s = || "-".to_string();
+    format!(
+        "G{{{}}}",
+        [
+            v.info.protocol_version.to_string(),
+            show_str(&v.info.name),
+            show_str(&v.info.map),
+            show_str(&v.info.game_mode),
+            v.info.appid.to_string(),
+            v.info.players_online.to_string(),
+            match &v.players {
+                Some(ps) => show_list(ps, |p| format!("({};{};{})", show_str(&p.name), p.score, p.duration.to_bits())),
+                None => show_list(&Vec::<gamedig::protocols::valve::ServerPlayer>::new(), |_| String::new()),
+            },
+            v.info.players_maximum.to_string(),
+            v.info.players_bots.to_string(),
+            show_server(&v.info.server_type),
+            show_bool(v.info.has_password),
+            show_bool(v.info.vac_secured),
+            show_str(&v.info.game_version),
+            e.and_then(|x| x.port).map_or_else(none_s, |p| format!("+{p}")),
+            e.and_then(|x| x.steam_id).map_or_else(none_s, |p| format!("+{p}")),
+            e.and_then(|x| x.tv_port).map_or_else(none_s, |p| format!("+{p}")),
+            e.and_then(|x| x.tv_name.as_ref()).map_or_else(none_s, |p| format!("+{}", show_str(p))),
+            e.and_then(|x| x.keywords.as_ref()).map_or_else(none_s, |p| format!("+{}", show_str(p))),
+            match &v.rules {
+                Some(r) => show_map(r),
+                None => show_map(&std::collections::HashMap::new()),
+            },
+        ]
+        .join(";")
+    )
+}
+
 fn port_arg(s: &str) -> Option<Option<u16>> {
     if s == "-" {
         Some(None)
@@ -72,13 +111,12 @@ fn entry_generic(args: &[&str]) -> String {
         script,
         || {
             let boxed = gamedig::query_with_timeout(game, &crate::net::ip(), port, timeout(r))?;
-            // the documented conversion of the protocol response to the per-game response
             Ok(match boxed.as_original() {
-                GenericResponse::Valve(v) => game::Response::new_from_valve_response(v.clone()),
+                GenericResponse::Valve(v) => v.clone(),
                 other => panic!("generic path returned a non-Valve response for a Valve game: {other:?}"),
             })
         },
-        show_game_response,
+        show_valve_as_game,
     )
 }
 
@@ -127,8 +165,8 @@ fn entry_protocol(args: &[&str]) -> String {
     };
     run_q(
         script,
-        || gamedig::protocols::valve::query(&addr(port), engine, Some(g), timeout(r)).map(game::Response::new_from_valve_response),
-        show_game_response,
+        || gamedig::protocols::valve::query(&addr(port), engine, Some(g), timeout(r)),
+        show_valve_as_game,
     )
 }
 
